@@ -299,7 +299,7 @@ def inspect_dir(root):
     import csv
     out = []
     for d, sub, files in os.walk(root):
-        if "metadata" not in files and ".is_grid_search" not in files:
+        if "metadata" not in files and ".is_grid_search" not in files and ".identifier" not in files:
             continue
         rel = os.path.relpath(d, root)
         e = {"rel": rel, "folder": os.path.basename(d), "metadata": "metadata" in files,
@@ -321,7 +321,10 @@ def inspect_dir(root):
             e["files"].sort()
             ip = os.path.join(fp, "info.json")
             if os.path.exists(ip):
-                e["info"] = json.load(open(ip))
+                try:
+                    e["info"] = json.load(open(ip))
+                except Exception:  # noqa
+                    e["info"] = "unreadable"
             sp = os.path.join(fp, "samples.csv")
             if os.path.exists(sp) and os.path.exists(os.path.join(fp, "samples_info.json")):
                 with open(sp) as f:
@@ -337,10 +340,18 @@ def inspect_dir(root):
             for nm in ("search", "model"):
                 jp = os.path.join(fp, nm + ".json")
                 if os.path.exists(jp):
-                    e[nm + "_digest"] = digest(json.load(open(jp)))
+                    try:
+                        e[nm + "_digest"] = digest(json.load(open(jp)))
+                    except Exception:  # noqa
+                        e[nm + "_digest"] = "unreadable"
             jp = os.path.join(fp, "search.json")
+            sj = None
             if os.path.exists(jp):
-                sj = json.load(open(jp))
+                try:
+                    sj = json.load(open(jp))
+                except Exception:  # noqa
+                    sj = None
+            if sj is not None:
                 e["search_cls"] = str(sj.get("class_path", "")).split(".")[-1]
                 e["search_keys"] = sorted(sj.get("arguments", {}).keys())
                 e["search_name"] = sj.get("arguments", {}).get("name")
@@ -398,11 +409,17 @@ def recompute_id(folder, vectors=None):
         search = from_dict(json.load(open(os.path.join(fp, "search.json"))))
     except Exception as e:  # noqa
         return {"exc": exc_name(e), "msg": str(e)[:200]}
+    info_error = None
+    if os.path.exists(os.path.join(fp, "info.json")):
+        try:
+            json.load(open(os.path.join(fp, "info.json")))
+        except Exception as e:  # noqa
+            info_error = exc_name(e)
     try:
         model = from_dict(json.load(open(os.path.join(fp, "model.json"))))
         ident = Identifier([search, model, search.unique_tag])
         out = {"id": str(ident), "tokens": ident.hash_list, "name": search.name, "unique_tag": search.unique_tag,
-               "model": canon_model(model), "insts": None}
+               "model": canon_model(model), "insts": None, "load_error": info_error}
         if vectors is not None:
             try:
                 out["keymap"] = {h: canon_key(model, h) for h, _ in (vectors[0] if vectors else [])}
@@ -428,7 +445,6 @@ def recompute_id(folder, vectors=None):
                     smp.max_log_likelihood()
                 except (AttributeError, NotImplementedError):
                     pass
-                out["load_error"] = None
             except Exception as e:  # noqa
                 out["load_error"] = exc_name(e)
         return out
@@ -450,6 +466,51 @@ def apply_layout(out_path, layout):
         if os.path.exists(z):
             os.remove(z)
     # "both": keep as is
+
+
+def inject_prefit_fault(paths, stage):
+    """Make DirectoryPaths.save_all stop at `stage` (harness-side fault injection on the paths OBJECT; the
+    code of /repo is untouched). `*_partial`: the file being written is left truncated, as a kill leaves it."""
+    name, partial = (stage[:-8], True) if stage.endswith("_partial") else (stage, False)
+    if name == "model_info":
+        def boom(*a, **k):
+            raise Interrupt()
+        paths._save_model_info = boom
+    elif name == "metadata":
+        def boom(*a, **k):
+            raise Interrupt()
+        paths._save_metadata = boom
+    elif name in ("info", "search", "model") and not partial:
+        orig = paths.save_json
+
+        def save_json(nm, object_dict, prefix=""):
+            if nm == name:
+                raise Interrupt()
+            return orig(nm, object_dict, prefix)
+        paths.save_json = save_json
+    elif name in ("info", "search", "model"):
+        # the process dies while json.dump is writing the file: whatever file object the real save_json
+        # opened for it keeps the first half of the text
+        import autofit.non_linear.paths.directory as D
+        real_json = D.json
+        root = str(paths.output_path)
+
+        class DyingJson:
+            def __getattr__(self, k):
+                return getattr(real_json, k)
+
+            def dump(self, obj, fh, **kw):
+                fn = str(getattr(fh, "name", ""))
+                if fn.startswith(root) and os.path.basename(fn).startswith(name + ".json"):
+                    text = real_json.dumps(obj, **kw)
+                    fh.write(text[: max(1, len(text) // 2)])
+                    fh.flush()
+                    raise Interrupt()
+                return real_json.dump(obj, fh, **kw)
+        D.json = DyingJson()
+        return lambda: setattr(D, "json", real_json)
+    else:
+        raise ValueError(stage)
 
 
 def run_fit(f, session=None):
@@ -477,13 +538,39 @@ def run_fit(f, session=None):
                 for c in rec["cells"]:
                     apply_layout(c["output_path"], f["layout"])
         else:
+            info = f.get("info")
+            pf = f.get("prefit")
+            undo = None
+            if pf and session is None:
+                if pf.get("resume"):
+                    # an earlier run of the same fit got as far as the sampler: metadata, search.json, model.json exist
+                    search.scripts = [dict(f["scripts"][0], interrupt="before_samples")]
+                    try:
+                        with Quiet():
+                            search.fit(model=model, analysis=analysis, info=info)
+                    except Interrupt:
+                        pass
+                    search.scripts = f["scripts"]
+                if pf["stage"] == "info_unserialisable":
+                    import numpy as np
+                    info = dict(info or {}, array=np.arange(3.0))   # json cannot serialise it: TypeError inside save_all
+                else:
+                    undo = inject_prefit_fault(search.paths, pf["stage"])
             try:
                 with Quiet():
-                    search.fit(model=model, analysis=analysis, info=f.get("info"))
+                    search.fit(model=model, analysis=analysis, info=info)
             except Interrupt:
                 rec["interrupted"] = True
                 if session is not None:
                     session.commit()
+            except TypeError as e:
+                if not (pf and pf["stage"] == "info_unserialisable"):
+                    raise
+                rec["interrupted"] = True
+                rec["prefit_exc"] = "TypeError"
+            finally:
+                if undo:
+                    undo()
             rec["identifier"] = search.paths.identifier
             rec["output_path"] = str(search.paths.output_path)
             if session is None:
@@ -582,7 +669,7 @@ def scenario(c, idx):
             from autofit.database import open_database
             session = open_database(db2)
             for f in c["fits"]:
-                if f.get("n_analyses", 1) > 1:
+                if f.get("n_analyses", 1) > 1 or f.get("prefit"):
                     # combined analyses through a session create their own kind of child fits: not compared
                     dr["fits_run"].append({"skipped": True})
                     continue
